@@ -174,4 +174,196 @@ theorem zone_never_different (p : Nat) (hp : p ≤ 6) (μ bias : Int) (z : Zone)
   · rw [h1] at hparse; exact absurd hparse (by simp)
   · rw [h1] at hparse; exact absurd hparse (by simp)
 
+/-! ### comparison -/
+
+/-- the comparison tolerance is one unit of the default rendering precision
+(`_epsilon = 10**-_precision`); discharged for the extracted constants at the end of the file -/
+def CmpCfg.WF (cfg : CmpCfg) : Prop := 1 ≤ cfg.prec ∧ cfg.prec ≤ 6 ∧ cfg.eps = (pow10 (6 - cfg.prec) : Nat)
+
+instance (cfg : CmpCfg) : Decidable cfg.WF := by unfold CmpCfg.WF; infer_instance
+
+/-- **`<` never contradicts the order of the default (millisecond) renderings**: if `a < b` as
+timestamps then the instant rendered for `a` is strictly before the one rendered for `b`
+(whatever the float representation errors), and likewise for `>`. -/
+theorem cmp_consistent (cfg : CmpCfg) (h : cfg.WF) (a b ba bb : Int) :
+    (tsLt cfg a b = true → roundTo cfg.prec a ba < roundTo cfg.prec b bb) ∧
+    (tsGt cfg a b = true → roundTo cfg.prec a ba > roundTo cfg.prec b bb) := by
+  obtain ⟨h1, h6, he⟩ := h
+  obtain ⟨_, _, a1, a2⟩ := roundTo_spec cfg.prec a ba h6
+  obtain ⟨_, _, b1, b2⟩ := roundTo_spec cfg.prec b bb h6
+  simp only [tsLt, tsGt, decide_eq_true_eq]
+  constructor <;> intro hlt <;> omega
+
+/-- the six operators are consistent with each other (`<=` is not `>`, `==` is neither `<` nor `>`) -/
+theorem cmp_operators (cfg : CmpCfg) (a b : Int) :
+    tsLe cfg a b = !tsGt cfg a b ∧ tsGe cfg a b = !tsLt cfg a b ∧
+    tsEq cfg a b = (!tsLt cfg a b && !tsGt cfg a b) ∧ tsNe cfg a b = !tsEq cfg a b ∧
+    (0 ≤ cfg.eps → ¬ (tsLt cfg a b = true ∧ tsGt cfg a b = true)) := by
+  refine ⟨rfl, rfl, by simp [tsEq, tsNe], by simp [tsEq], ?_⟩
+  intro he
+  simp only [tsLt, tsGt, decide_eq_true_eq]
+  omega
+
+/-- **Equal renderings compare equal**: two instants whose default-precision UTC renderings are
+the same text are `==`, `<=`, `>=` and neither `<` nor `>` nor `!=`. -/
+theorem equal_renderings_compare_equal (cfg : CmpCfg) (h : cfg.WF) (a b ba bb : Int)
+    (text : List Char) (ha : render cfg.prec a ba none .dflt = some text)
+    (hb : render cfg.prec b bb none .dflt = some text) :
+    tsEq cfg a b = true ∧ tsLt cfg a b = false ∧ tsGt cfg a b = false ∧ tsNe cfg a b = false ∧
+    tsLe cfg a b = true ∧ tsGe cfg a b = true := by
+  obtain ⟨h1, h6, he⟩ := h
+  have pa := render_parse_utc cfg.prec h6 a ba ⟨[], []⟩ text ha
+  have pb := render_parse_utc cfg.prec h6 b bb ⟨[], []⟩ text hb
+  rw [pa] at pb
+  have heq : roundTo cfg.prec a ba = roundTo cfg.prec b bb := by
+    have := Except.ok.inj pb
+    simpa [renderedInstant, show cfg.prec ≠ 0 by omega] using this
+  obtain ⟨_, _, a1, a2⟩ := roundTo_spec cfg.prec a ba h6
+  obtain ⟨_, _, b1, b2⟩ := roundTo_spec cfg.prec b bb h6
+  have hlt : tsLt cfg a b = false := by simp only [tsLt, decide_eq_false_iff_not]; omega
+  have hgt : tsGt cfg a b = false := by simp only [tsGt, decide_eq_false_iff_not]; omega
+  simp [tsEq, tsNe, tsLe, tsGe, hlt, hgt]
+
+/-- consequently `<` implies *different* renderings -/
+theorem lt_renderings_differ (cfg : CmpCfg) (h : cfg.WF) (a b ba bb : Int) (ta tb : List Char)
+    (ha : render cfg.prec a ba none .dflt = some ta) (hb : render cfg.prec b bb none .dflt = some tb)
+    (hlt : tsLt cfg a b = true) : ta ≠ tb := by
+  intro heq
+  subst heq
+  have := (equal_renderings_compare_equal cfg h a b ba bb ta ha hb).2.1
+  rw [hlt] at this
+  exact absurd this (by simp)
+
+/-! ### durations -/
+
+/-- **A duration formatted to text parses back to exactly the same duration**, for every
+non-negative count of microseconds that a `timedelta` can hold (every combination of
+y/w/d/h/m/s and of the fractional, `ms` and `us` sub-second forms), for any unit lengths and any
+unit-word table in which the eight words that `_format` writes close the right groups. -/
+theorem duration_roundtrip (cfg : DurCfg) (tbl : UnitTable) (hU : UnitsOk tbl) (d : Nat)
+    (hrange : d / 86400000000 ≤ 999999999) :
+    durParse cfg tbl (durFormat cfg (d : Int)) = .ok (d : Int) := by
+  obtain ⟨r, hr, hsum⟩ := durItems_format cfg tbl hU d
+  unfold durParse
+  rw [hr]
+  simp only []
+  rw [hsum, if_neg (by omega)]
+
+/-- a negative duration formats with a leading `-` (Python's floor division makes the years
+negative) which the expression does not accept: it is refused, not misread -/
+theorem negative_duration_rejected (cfg : DurCfg) (tbl : UnitTable) (hyr : 0 < cfg.yr) (d : Int)
+    (hd : d < 0) : durParse cfg tbl (durFormat cfg d) = .error .syntax := by
+  have hs : d / 1000000 < 0 := by omega
+  have hy : d / 1000000 / (cfg.yr : Int) < 0 :=
+    Int.ediv_neg_of_neg_of_pos hs (by omega)
+  have hform : ∃ rest, durFormat cfg d = '-' :: rest := by
+    unfold durFormat
+    simp only [unitText, intDigits]
+    rw [if_neg (by omega), if_pos hy]
+    exact ⟨_, by simp only [List.cons_append, List.append_assoc]; rfl⟩
+  obtain ⟨rest, hrest⟩ := hform
+  unfold durParse
+  rw [hrest]
+  simp [durItems, dropWs, isWs, spanDigits, isDigit, digitVal, isDecPoint]
+
+/-! ### the calendar (used by all of the above; stated here as a property of its own) -/
+
+/-- **Days ↔ civil date round trip for every day number**, with the civil fields in range
+(month 1..12, day 1..length of that month in that year, leap years included). -/
+theorem days_civil_roundtrip (n : Int) :
+    daysFromCivil (civilFromDays n).1 (civilFromDays n).2.1 (civilFromDays n).2.2 = n ∧
+    1 ≤ (civilFromDays n).2.1 ∧ (civilFromDays n).2.1 ≤ 12 ∧ 1 ≤ (civilFromDays n).2.2 ∧
+    (civilFromDays n).2.2 ≤ daysInMonth (civilFromDays n).1 (civilFromDays n).2.1 :=
+  ⟨daysFromCivil_civilFromDays n, civilFromDays_valid n⟩
+
+/-- the rendered instant is within half a unit of the last digit of the instant, and to the
+millisecond (±0.5 ms) for `p ≥ 3`; for `p = 0` it is the instant truncated to the second -/
+theorem renderedInstant_close (p : Nat) (hp : p ≤ 6) (μ bias : Int) :
+    (p = 0 → renderedInstant p μ bias ≤ μ ∧ μ < renderedInstant p μ bias + 1000000) ∧
+    (1 ≤ p → 2 * (renderedInstant p μ bias - μ) ≤ (pow10 (6 - p) : Nat) ∧
+             2 * (μ - renderedInstant p μ bias) ≤ (pow10 (6 - p) : Nat)) ∧
+    (3 ≤ p → 2 * (renderedInstant p μ bias - μ) ≤ 1000 ∧ 2 * (μ - renderedInstant p μ bias) ≤ 1000) := by
+  unfold renderedInstant
+  obtain ⟨_, _, h1, h2⟩ := roundTo_spec p μ bias hp
+  refine ⟨fun h0 => by simp only [h0, if_true]; omega, fun h1p => ?_, fun h3 => ?_⟩
+  · rw [if_neg (by omega)]; exact ⟨h1, h2⟩
+  · rw [if_neg (by omega)]
+    have : ((pow10 (6 - p) : Nat) : Int) ≤ 1000 := by
+      have : p = 3 ∨ p = 4 ∨ p = 5 ∨ p = 6 := by omega
+      rcases this with rfl | rfl | rfl | rfl <;> decide
+    omega
+
+/-! ### non-vacuity, witnesses, and the tie to the extracted constants -/
+
+def edmonton : Zone :=
+  { name := "America/Edmonton".toList, first := ⟨-25200, false, "MST".toList⟩,
+    trans := [(1394355600, ⟨-21600, true, "MDT".toList⟩), (1414915200, ⟨-25200, false, "MST".toList⟩)] }
+
+def edmontonDb : TzDb := { zones := [edmonton], abbrevs := [] }
+
+example : edmonton.wf = true := by decide
+example : ZoneWord edmonton.name := ⟨by decide, 'A', _, rfl, by decide⟩
+example : edmontonDb.info edmonton.name = .ok (edmonton, none) := by decide
+
+/-- carry into the next second / minute / hour / day / month / year (the instant of `history_test`,
+and 1999-12-31 23:59:59.9996) -/
+example : render 3 1399326141999836 0 none .dflt = some "2014-05-05 21:42:22.000".toList := by decide +kernel
+example : render 3 946684799999600 0 none .dflt = some "2000-01-01 00:00:00.000".toList := by decide +kernel
+example : parse ⟨[], []⟩ "2000-01-01 00:00:00.000".toList = .ok 946684800000000 := by decide +kernel
+
+/-- an instant in the repeated hour of 2014-11-02 is refused as ambiguous, the hour before parses -/
+example : render 3 1414915200500000 0 (some edmonton) .full
+    = some "2014-11-02 01:00:00.500 America/Edmonton".toList := by decide +kernel
+example : parse edmontonDb "2014-11-02 01:00:00.500 America/Edmonton".toList = .error .ambiguous := by
+  decide +kernel
+example : parse edmontonDb "2014-11-02 00:59:59.999 America/Edmonton".toList = .ok 1414911599999000 := by
+  decide +kernel
+/-- a wall-clock time in the skipped hour of 2014-03-09 is refused as nonexistent -/
+example : parse edmontonDb "2014-03-09 02:30:00 America/Edmonton".toList = .error .nonexistent := by
+  decide +kernel
+
+/-- **Witness 1 (code before the fix).**  For instants before 1970 with a sub-second part the
+fraction digits were taken from the text of the negative float: -0.25 s was rendered as
+`23:59:59.250`, which parses to -0.75 s — a different instant.  (`renderOld` is that code.) -/
+theorem renderOld_wrong_instant :
+    renderOld 3 (-250000) 0 none .dflt = some "1969-12-31 23:59:59.250".toList ∧
+    parse ⟨[], []⟩ "1969-12-31 23:59:59.250".toList = .ok (-750000) ∧
+    render 3 (-250000) 0 none .dflt = some "1969-12-31 23:59:59.750".toList := by
+  refine ⟨by decide +kernel, by decide +kernel, by decide +kernel⟩
+
+def portAuPrince : Zone :=
+  { name := "America/Port-au-Prince".toList, first := ⟨-18000, false, "EST".toList⟩, trans := [] }
+
+/-- **Witness 2 (code before the fix).**  A rendering with the key of a zone whose name contains
+`-` was refused (`'America/Port-au-Prince'` was cut down to the zone `'Prince'`), for every
+instant; the repaired parser takes the whole last word. -/
+theorem parseOld_rejects_hyphenated_zone :
+    render 0 946080000000000 0 (some portAuPrince) .full
+      = some "1999-12-24 19:00:00 America/Port-au-Prince".toList ∧
+    parseOld ⟨[portAuPrince], []⟩ "1999-12-24 19:00:00 America/Port-au-Prince".toList = .error .zone ∧
+    parse ⟨[portAuPrince], []⟩ "1999-12-24 19:00:00 America/Port-au-Prince".toList = .ok 946080000000000 := by
+  refine ⟨by decide +kernel, by decide +kernel, by decide +kernel⟩
+
+/-- durations: the three sub-second forms and a full decomposition -/
+example : durFormat {} 90061000001 = "1d1h1m1s1us".toList := by decide +kernel
+example : durFormat {} 60250000 = "1m250ms".toList := by decide +kernel
+example : durFormat {} 10500000 = "10.5s".toList := by decide +kernel
+example : durParse {} Generated.durUnits "10.5s".toList = .ok 10500000 := by decide +kernel
+
+/-- the extracted constants satisfy the hypotheses of the theorems -/
+theorem generated_cmp_wf :
+    ({ eps := Generated.tsEpsilonUs, prec := Generated.tsPrecision } : CmpCfg).WF := by decide
+
+theorem generated_units_ok : UnitsOk Generated.durUnits :=
+  ⟨by decide, by decide, by decide, by decide, by decide, by decide, by decide, by decide⟩
+
+/-- the separators blanked by the parser and the date format are the ones the model assumes -/
+theorem generated_format :
+    (∀ c, c ∈ Generated.tsSeps ↔ isSep c = true) ∧ Generated.tsFmt = "%Y-%m-%d %H:%M:%S" := by
+  refine ⟨fun c => ?_, by decide⟩
+  simp only [Generated.tsSeps, isSep, List.mem_cons, List.not_mem_nil, or_false, Bool.or_eq_true, beq_iff_eq]
+  constructor
+  · rintro (h | h | h) <;> subst h <;> decide
+  · rintro ((h | h) | h) <;> subst h <;> decide
+
 end Cpppo.Times
